@@ -209,12 +209,11 @@ def can_junk(T):
 
 def depth(T):
     """Number of list levels below (and including) an array whose items have type T is 1 + depth(T);
-    returns (min, max) over record/union branches; strings count as one list level (as in awkward 1.x)."""
+    returns (min, max) over record/union branches; strings are leaves."""
     k = T[0]
-    if k in ("int", "float", "bool", "unknown"):
+    if k in ("int", "float", "bool", "unknown", "str", "bytes"):
+        # strings are leaves for axis counting (purelist_depth treats a string list as depth 1... of its own)
         return (0, 0)
-    if k in ("str", "bytes"):
-        return (1, 1)
     if k == "var":
         a, b = depth(T[1])
         return (a + 1, b + 1)
@@ -326,3 +325,46 @@ TYPES_THOROUGH = TYPES_QUICK + [
     B,
     var(B),
 ]
+
+
+###################################################################### JSON form (replay files)
+
+def tv_to_json(tv):
+    if isinstance(tv, U):
+        return {"__U__": tv.tag, "v": tv_to_json(tv.v)}
+    if isinstance(tv, list):
+        return [tv_to_json(x) for x in tv]
+    if isinstance(tv, tuple):
+        return {"__tup__": [tv_to_json(x) for x in tv]}
+    if isinstance(tv, dict):
+        return {"__rec__": [[k, tv_to_json(v)] for k, v in tv.items()]}
+    if isinstance(tv, bytes):
+        return {"__bytes__": tv.hex()}
+    if isinstance(tv, float):
+        return {"__float__": repr(tv)}
+    return tv
+
+
+def tv_from_json(j):
+    if isinstance(j, list):
+        return [tv_from_json(x) for x in j]
+    if isinstance(j, dict):
+        if "__U__" in j:
+            return U(j["__U__"], tv_from_json(j["v"]))
+        if "__tup__" in j:
+            return tuple(tv_from_json(x) for x in j["__tup__"])
+        if "__rec__" in j:
+            return {k: tv_from_json(v) for k, v in j["__rec__"]}
+        if "__bytes__" in j:
+            return bytes.fromhex(j["__bytes__"])
+        if "__float__" in j:
+            return float(j["__float__"])
+    return j
+
+
+def type_to_json(T):
+    return [type_to_json(x) if isinstance(x, tuple) else x for x in T]
+
+
+def type_from_json(j):
+    return tuple(type_from_json(x) if isinstance(x, list) else x for x in j)
